@@ -47,6 +47,11 @@ def contracts():
     from contracts import C03
     cs += common.shared(C03, ['core.Spec.glomit', 'core._handle_tuple', 'core._handle_dict', 'core._handle_list', 'core.Coalesce.glomit', 'core.Pipe.glomit',
                               'core.Call.glomit', 'core.Ref.glomit', 'core.AUTO'])
+    # the message of the original error: the renderers of the glom error classes (what the last line of the trace says)
+    from contracts import X_ctor
+    cs += common.shared(X_ctor, ['core.CoalesceError.get_message', 'core.UnregisteredTarget.get_message', 'matching.CheckError.get_message',
+                                 'core.PathAssignError.get_message', 'mutation.PathDeleteError.get_message', 'core.CoalesceError.__init__',
+                                 'core.PathAssignError.__init__', 'matching.CheckError.__init__'])
     return cs
 
 
